@@ -206,6 +206,11 @@ func (f *Frame) pureExtern(st *State, fn *ssa.Function, args []Val) Val {
 		}
 	}
 	res := sig.Results()
+	if name == "fmt.Sprintf" && !f.top().relational {
+		if v, ok := f.modelSprintf(st, sig.Params().At(sig.Params().Len()-1).Type().(*types.Slice).Elem(), args); ok {
+			return v
+		}
+	}
 	if f.top().relational && !scalar && sig.Variadic() && sig.Recv() == nil {
 		// relational checks: a variadic pure function (fmt.Sprintf, ...) applied to a short literal
 		// argument list is a deterministic function of the format and the boxed arguments
@@ -366,4 +371,74 @@ func (f *Frame) confinedExtern(st *State, r *Term, fn *ssa.Function, args []Val,
 		st.alloc = na
 	}
 	return f.freshResults(st, fn.Signature, "ext")
+}
+
+// modelSprintf: fmt.Sprintf with a literal format made of text and %s verbs only, applied to a literal
+// number of arguments: when every argument is a plain string the result is the concatenation the format
+// describes (the documented behaviour of %s on strings); nothing is known otherwise.
+func (f *Frame) modelSprintf(st *State, anyT types.Type, args []Val) (Val, bool) {
+	if len(args) != 2 {
+		return nil, false
+	}
+	ft, ok1 := args[0].(*Term)
+	vs, ok2 := args[1].(*Term)
+	if !ok1 || !ok2 || vs.S != SSlc {
+		return nil, false
+	}
+	format, found := "", false
+	for lit, t := range f.ctx.strLits {
+		if t == ft || t.String() == ft.String() {
+			format, found = lit, true
+		}
+	}
+	n, isLit := SlcLen(vs).intVal()
+	if !found || !isLit || n > 6 {
+		return nil, false
+	}
+	var segs []string
+	rest := format
+	for {
+		k := strings.Index(rest, "%")
+		if k < 0 {
+			segs = append(segs, rest)
+			break
+		}
+		if k+1 >= len(rest) || rest[k+1] != 's' {
+			return nil, false
+		}
+		segs = append(segs, rest[:k])
+		rest = rest[k+2:]
+	}
+	if int64(len(segs)-1) != n {
+		return nil, false
+	}
+	trust(f, "fmt.Sprintf with a format of text and %s verbs applied to strings is their concatenation")
+	E := f.ctx.comp(st, f.eName(anyT), ArrS(SInt, ArrS(SInt, SAny)))
+	sid := f.ctx.eng.sorts.TypeID(types.Typ[types.String])
+	res := f.ctx.fresh("sprintf", SStr)
+	allStr := True
+	var cat *Term
+	add := func(t *Term) {
+		if cat == nil {
+			cat = t
+		} else {
+			cat = f.ctx.uf("strcat", SStr, cat, t)
+		}
+	}
+	for j := int64(0); j < n; j++ {
+		if segs[j] != "" {
+			add(f.ctx.strLit(segs[j]))
+		}
+		e := Select(Select(E, SlcBase(vs)), Slot(SlcOff(vs), IntLit(j)))
+		allStr = And(allStr, Eq(App("typeof", SInt, e), IntLit(int64(sid))))
+		add(f.ctx.uf(fmt.Sprintf("unbox!%d", sid), SStr, e))
+	}
+	if segs[n] != "" {
+		add(f.ctx.strLit(segs[n]))
+	}
+	if cat == nil {
+		cat = f.ctx.strLit("")
+	}
+	f.ctx.assume(Implies(allStr, Eq(res, cat)))
+	return res, true
 }
